@@ -308,17 +308,10 @@ fn main() {
             let f: CustomFontD = zoo::gen_custom_font(rng);
             let s: String = zoo::gen_custom_string(rng, &f).replace('\n', "");
             let t = text_of(s, FontD::Custom(f.clone()), idx as usize, rng);
-            // independent reading of the mapping string
-            let glyphs: Vec<char> = match f.mapping.strip_prefix('\0') {
-                Some(r) => {
-                    let mut it = r.chars();
-                    let (a, b) = (it.next().unwrap(), it.next().unwrap());
-                    (a..=b).collect()
-                }
-                None => f.mapping.chars().collect(),
-            };
-            let repl = f.replacement;
-            let index_of = |c: char| glyphs.iter().position(|g| *g == c).unwrap_or(repl);
+            // ground truth of the mapping: the generator's character list (the mapping string handed
+            // to the library is derived from it), or the closure's formula
+            let index_of = |c: char| f.index_of(c);
+            ctx.count(if f.closure_mapping { "custom_fonts_with_closure_mapping" } else if f.mapping.contains('\0') { "custom_fonts_with_range_mapping" } else { "custom_fonts_with_listed_mapping" }, 1);
             f.with_font(|font| check_line(ctx, &t, font, "custom", &index_of, "custom-font"));
             if t.text.chars().count() >= 2 {
                 ctx.nontrivial(zoo::Desc::Text(t.clone()).hash());
